@@ -91,3 +91,141 @@ def replay_stream(words, acc, shadow, counters, region_alias=None):
                 shadow.define(region, iv)
         counters["ops_replayed"] = counters.get("ops_replayed", 0) + 1
     return findings
+
+
+# ------------------------------------------------------------------------------------------------------------- writer tags (C03 monitor 2)
+class TagShadow:
+    """last-writer tag per byte of the read/write regions of one command stream. Tag 0 = not written inside this stream."""
+
+    def __init__(self):
+        self.arr = {}
+        self.keys = [None]
+        self.ids = {}
+
+    def tag_id(self, key):
+        if key not in self.ids:
+            self.ids[key] = len(self.keys)
+            self.keys.append(key)
+        return self.ids[key]
+
+    def _region(self, region, end):
+        a = self.arr.get(region)
+        if a is None or len(a) < end:
+            n = np.zeros(max(end, 1 << 16, 0 if a is None else 2 * len(a)), dtype=np.int32)
+            if a is not None:
+                n[: len(a)] = a
+            self.arr[region] = a = n
+        return a
+
+    def write(self, region, iv, key):
+        if len(iv) == 0:
+            return
+        a = self._region(region, int(iv[:, 1].max()))
+        t = self.tag_id(key) if key is not None else 0
+        for s, e in iv:
+            a[s:e] = t
+
+    def foreign(self, region, iv, accept):
+        """-> list of (start, end, key) of bytes whose last writer inside this stream is a key not accepted by accept(key)"""
+        out = []
+        if len(iv) == 0 or region not in self.arr:
+            return out
+        a = self.arr[region]
+        verdict = {0: True}
+        for s, e in iv:
+            seg = a[s : min(e, len(a))]
+            if len(seg) == 0:
+                continue
+            for t in np.unique(seg):
+                t = int(t)
+                if t not in verdict:
+                    verdict[t] = bool(accept(self.keys[t]))
+                if not verdict[t]:
+                    pos = int(np.argmax(seg == t))
+                    out.append((int(s) + pos, int(s) + pos + int((seg == t).sum()), self.keys[t]))
+                    if len(out) >= 3:
+                        return out
+        return out
+
+
+def tensor_key(t):
+    return None if t is None else str(t.equivalence_id)
+
+
+def tag_replay(call, acc, counters):
+    """call: one StreamLog record (API ops, words, op -> high-level command).  Every read of a tensor must find bytes last written for that
+    tensor (same equivalence id; for encoded weights also the same depth slice), or bytes not written inside this stream at all.
+    -> findings (list of dict)"""
+    from ethosu.vela.high_level_command_stream import DMA, NpuStripe
+    from ethosu.vela.tensor import TensorPurpose
+
+    findings = []
+    events, info = decode.decode_stream(call["words"])
+    opev = [e for e in events if e.kind in ("op", "dma")]
+    if len(opev) != len(call["ops"]):
+        counters["tag_streams_unpaired"] = counters.get("tag_streams_unpaired", 0) + 1
+        return findings
+    sh = TagShadow()
+    names = {}
+
+    def nm(t):
+        if t is not None:
+            names[tensor_key(t)] = t.name
+        return tensor_key(t)
+
+    for ev, apiop in zip(opev, call["ops"]):
+        cmd = call["op_to_cmd"].get(apiop)
+        if ev.kind == "dma":
+            fp = footprint.dma_footprint(decode.dma_fields(ev.op))
+            expect, writes = {}, {}
+            if isinstance(cmd, DMA):
+                sub = int(cmd.box.start_coord[-1]) if cmd.in_tensor.purpose == TensorPurpose.Weights else None
+                expect["dma_src"] = (nm(cmd.in_tensor), None)
+                writes["dma_dst"] = (nm(cmd.out_tensor), sub)
+            desc = "dma#%d" % ev.op.index
+        else:
+            F = decode.Fields(ev.op)
+            fp = footprint.op_footprint(F, acc)
+            expect, writes = {}, {}
+            if isinstance(cmd, NpuStripe):
+                expect["ifm"] = (nm(cmd.ifm_tensor), None)
+                if cmd.ifm2_tensor is not None:
+                    expect["ifm2"] = (nm(cmd.ifm2_tensor), None)
+                if cmd.weight_tensor is not None:
+                    d = int(cmd.weight_box.start_coord[-1]) if cmd.weight_box is not None else None
+                    for part in ("weights0", "weights1", "scales0", "scales1"):
+                        expect[part] = (nm(cmd.weight_tensor), d)
+                    if cmd.scale_tensor is not None:
+                        for part in ("scales0", "scales1"):
+                            expect[part] = (nm(cmd.scale_tensor), "any")
+                writes["ofm"] = (nm(cmd.ofm_tensor), None)
+            desc = "%s/%s#%d" % (F.kind, F.sub, ev.op.index)
+        for part, (region, iv) in fp.parts.items():
+            if region in (0, "shram") or part in ("ofm", "dma_dst"):
+                continue
+            if part not in expect or expect[part][0] is None:
+                continue
+            want, sub = expect[part]
+            counters["tagged_reads_checked"] = counters.get("tagged_reads_checked", 0) + 1
+
+            def accept(key, want=want, sub=sub):
+                return key[0] == want and (sub in (None, "any") or key[1] is None or key[1] == sub)
+
+            bad = sh.foreign(region, iv, accept)
+            if any(True for _ in bad):
+                s, e, key = bad[0]
+                findings.append(dict(op=desc, part=part.rstrip("01"), region=str(region), first=(s, e), want=(names.get(want, want), sub), found=(names.get(key[0], key[0]), key[1])))
+            else:
+                a = sh.arr.get(region)
+                if a is not None and len(iv) and int(iv[0, 0]) < len(a) and a[int(iv[0, 0])] != 0:
+                    counters["tagged_reads_of_stream_written_bytes"] = counters.get("tagged_reads_of_stream_written_bytes", 0) + 1
+        for part, (region, iv) in fp.parts.items():
+            if region in (0, "shram") or part not in ("ofm", "dma_dst"):
+                continue
+            w = writes.get(part)
+            sh.write(region, iv, None if w is None or w[0] is None else w)
+            if part == "dma_dst" and w is not None and w[1] is not None:
+                counters["tagged_weight_slices"] = counters.get("tagged_weight_slices", 0) + 1
+        counters["tag_ops_replayed"] = counters.get("tag_ops_replayed", 0) + 1
+    counters["tag_streams"] = counters.get("tag_streams", 0) + 1
+    return findings
